@@ -24,6 +24,11 @@ BOOLS = [True, False, True]
 DOUBLES = [(1.5, "1.5E0"), (-0.25, "-2.5E-1"), (2.5, "2.5E0")]
 
 
+class Unrenderable(Exception):
+    """the token list has no JSON spelling: two values for one member key that is a @container @list term, one of them a list (a JSON
+    object has one member per key, and an array of lists under such a term is ONE list of lists)"""
+
+
 class JsonLdWriter:
     def __init__(self, seed, doc):
         self.rng = random.Random(seed)
@@ -165,10 +170,10 @@ class JsonLdWriter:
         self.i += 1
         members = []          # (key, value) in token order; equal keys are merged into arrays
         if tok["subj"]["term"]["k"] != "none":
-            members.append(("@id", self.spell(tok["subj"])))
+            members.append(("@id", self.spell(tok["subj"]), False))
         if tok["hastype"]:
             ty = self.spell(tok["type"])
-            members.append(("@type", ty if self.rng.random() < 0.6 else [ty]))
+            members.append(("@type", ty if self.rng.random() < 0.6 else [ty], False))
         ctx = self.ctx_json(tok["ctx"])
         while self.doc[self.i]["t"] != "/node":
             t = self.doc[self.i]
@@ -207,11 +212,14 @@ class JsonLdWriter:
                     v = {"__bare_list__": items}
             else:
                 raise ValueError(t["t"])
-            members.append((key, v))
+            members.append((key, v, t["key"]["how"] == "term" and t["t"] == "list"))
         self.i += 1
         # merge equal keys
         out = {}
-        for k, v in members:
+        listkeys = {k for k, v, lk in members if lk}
+        if any(sum(1 for k2, _, _ in members if k2 == k) > 1 for k in listkeys):
+            raise Unrenderable()
+        for k, v, _ in members:
             if isinstance(v, dict) and "__bare_list__" in v:
                 v = v["__bare_list__"]
                 if k in out:
